@@ -91,11 +91,22 @@ theorem uncontractSegmented_shape (one : ν) (shells : List (Shell ν)) :
 /-- **the column filter of remove_free_primitives keeps exactly the functions that contract two or
 more primitives** (single-momentum shells; a column with no non-zero entry is kept too — such a
 column does not exist in valid data) -/
+theorem removeFreeCore_single (val : ν → Rat) (shells : List (Shell ν)) (hsingle : ∀ sh ∈ shells, sh.am.length = 1) :
+    removeFreeCore val shells = shells.filterMap fun sh =>
+      let kept := sh.coefs.filter (fun c => !isSingleColumn val c)
+      if kept.isEmpty then none else some { sh with coefs := kept } := by
+  unfold removeFreeCore
+  apply List.filterMap_congr
+  intro sh hsh
+  have h1 : ¬ (sh.am.length > 1) := by have := hsingle sh hsh; omega
+  simp only [h1, if_false]
+
 theorem removeFree_spec (val : ν → Rat) (shells : List (Shell ν))
     (hsingle : ∀ sh ∈ shells, sh.am.length = 1) (f : Func) :
     funcSet val (removeFreeCore val shells) f
       ↔ ∃ sh ∈ shells, ∃ c ∈ sh.coefs, isSingleColumn val c = false ∧ f = (sh.am.headD 0, colFn val sh.exps c) := by
-  unfold funcSet removeFreeCore
+  rw [removeFreeCore_single val shells hsingle]
+  unfold funcSet
   constructor
   · rintro ⟨s, hs, hf⟩
     obtain ⟨sh, hsh, hs'⟩ := List.mem_filterMap.1 hs
@@ -121,6 +132,42 @@ theorem removeFree_spec (val : ν → Rat) (shells : List (Shell ν))
     · have h1 : ¬ (sh.am.length > 1) := by omega
       simp only [Shell.funcs, h1, if_false, List.mem_map]
       exact ⟨c, hk, rfl⟩
+
+theorem zipWith_map_map {α β γ δ : Type} (f : β → γ → δ) (g : α → β) (h : α → γ) (l : List α) :
+    List.zipWith f (l.map g) (l.map h) = l.map (fun x => f (g x) (h x)) := by
+  induction l with
+  | nil => rfl
+  | cons a as ih => simp [ih]
+
+/-- **fused shells** (fix ed2ae683: before it the momentum list was left untouched): what `remove_free_primitives` keeps of a fused
+sp/spd shell is exactly its members whose column contracts two or more primitives — each still under its own angular momentum —, the
+shell keeps one column per momentum (so it stays well formed), its exponents are untouched, and nothing is kept when no member is contracted -/
+theorem removeFree_fused (val : ν → Rat) (sh : Shell ν) (hfused : sh.am.length > 1) (s : Shell ν)
+    (hs : s ∈ removeFreeCore val [sh]) :
+    s.funcs val = ((sh.am.zip sh.coefs).filter (fun p => !isSingleColumn val p.2)).map (fun p => (p.1, colFn val sh.exps p.2))
+    ∧ s.am.length = s.coefs.length ∧ s.exps = sh.exps ∧ s.am ≠ [] := by
+  unfold removeFreeCore at hs
+  simp only [List.filterMap_cons, List.filterMap_nil, hfused, if_true] at hs
+  by_cases hk : ((sh.am.zip sh.coefs).filter (fun p => !isSingleColumn val p.2)).isEmpty = true
+  · simp [hk] at hs
+  · simp only [hk, Bool.false_eq_true, if_false, List.mem_singleton] at hs
+    subst hs
+    refine ⟨?_, by simp, rfl, ?_⟩
+    · generalize hkept : (sh.am.zip sh.coefs).filter (fun p => !isSingleColumn val p.2) = kept at hk
+      unfold Shell.funcs
+      by_cases hl : (kept.map (·.1)).length > 1
+      · simp only [hl, if_true]
+        exact zipWith_map_map _ _ _ kept
+      · simp only [hl, if_false]
+        -- one member left: a single-momentum shell
+        match kept, hk, hl with
+        | [p], _, _ => simp
+        | [], hk, _ => simp at hk
+        | _ :: _ :: _, _, hl => simp at hl
+    · intro h
+      have : ((sh.am.zip sh.coefs).filter (fun p => !isSingleColumn val p.2)) = [] := by
+        simpa using h
+      simp [this] at hk
 
 /-! ## optimize_general: one zeroing step keeps the span (abstract linear algebra, over ℚ) -/
 
